@@ -12,7 +12,7 @@ open Afkak.Consumer Afkak.Monitor Afkak.Proofs.Consumer
     events, cancel outcomes, commit outcomes and re-entrant calls. -/
 theorem C13_start_fires_at_most_once (cfg : Cfg) (script : List PEntry) (evs : List Ev) :
     C13.firesOnceOk (trace cfg script evs) = true :=
-  accepts_trace _ _ cfg script evs (run_top cfg script evs).1.fo.foOk
+  accepts_trace _ _ cfg script evs (run_fo cfg script evs).foOk
 
 /-- What `stop()` leaves behind, from EVERY reachable state (any point of any history, any cancel
     outcome, a graceful shutdown pending or not): the consumer is stopped, no `_process_messages`
@@ -24,9 +24,9 @@ theorem C13_stop_leaves_nothing_fetching (cfg : Cfg) (script : List PEntry) (evs
     s'.startD = .none ∧ s'.proc = none ∧ retryPending s'.retryCall = false ∧
       activeReq s'.requestD = none ∧ s'.parked = none := by
   intro s s'
-  have ht := run_top cfg script evs
+  letI : EnvHyp := ⟨False⟩   -- the lemmas below assume nothing about the environment
   have hq := stopCore_quiet_any (cfg := cfg) (opsN_quiet cfg cfg.depth) (opsN_procNone cfg cfg.depth) s
-  have hc := stopCore_calm_any (cfg := cfg) (opsN_calm cfg cfg.depth) (opsN_procNone cfg cfg.depth) s ht.1.sf.parkedBlock
+  have hc := stopCore_calm_any (cfg := cfg) (opsN_calm cfg cfg.depth) (opsN_procNone cfg cfg.depth) s (run_sf cfg script evs).parkedBlock
   exact ⟨stopCore_startD s, hq.1, hq.2, hc.2.1, hc.2.2⟩
 
 /-- `stop()` called when the consumer is not running raises `RestopError` and changes nothing. -/
